@@ -57,12 +57,8 @@ Lemma gen_nsec3_ce_src :
 Proof. vm_compute. reflexivity. Qed.
 
 
-(* aggressiveNSEC3Covers: the same interval rule on hashes *)
-Lemma gen_nsec3_covers_src :
-  nsec3_covers_src = src ["case ownerNext == 0:"; "return hashOwner != 0"; "case ownerNext < 0:";
-                          "return hashOwner > 0 && hashNext < 0";
-                          "return hashOwner > 0 || hashNext < 0"]%string.
-Proof. vm_compute. reflexivity. Qed.
+(* aggressiveNSEC3Covers: since wave 9 translated as a whole (bytes.Compare) and proved equal to covers3 in
+   Proofs_Sets.gen_nsec3_covers_lemma; the statement-text pin nsec3_covers_src is gone *)
 
 (* nsec3Safe (translated with the miekg NSEC3 record as a value; the nil test is the caller's): the
    model's nsec3_safe on the record's algorithm, iteration count and flags *)
